@@ -1,6 +1,1058 @@
-//! C23 — not implemented yet.
+//! C23 — Subqueries follow SQL semantics, decorrelated or not.
+//!
+//! Generator (own, focused; choice tape): 2–3 small tables (BIGINT-heavy, some
+//! VARCHAR/DATE; value domain 0..4 so correlation values repeat; NULL density
+//! 0/25/45 % per column; 0–6 rows so empty subquery results are common). One
+//! outer block `SELECT … FROM T t1 [join T2] WHERE <P>` where P places one or
+//! two subquery predicates at the top level, under AND / OR / NOT, and/or a
+//! scalar subquery sits in the SELECT list. Subquery kinds: [NOT] EXISTS,
+//! x [NOT] IN (SELECT col …), x cmp (SELECT COUNT/MIN/MAX/SUM …) on either side.
+//! Correlation: 0–2 predicates `inner op outer` (mostly `=`, sometimes
+//! `< <= <> >`, either orientation), the correlated inner column projected or
+//! not, local inner predicates, correlation under OR, the inner table equal to
+//! the outer one (self reference) or not, an inner join or derived table now
+//! and then, and a second nesting level correlated to either enclosing block.
+//!
+//! Oracles:
+//!  1. `refsql` (three-valued IN / NOT IN / EXISTS, aggregates over empty input);
+//!  2. differential: `ctx.sql` (production optimizer) vs the same statement
+//!     optimized with the production rule list minus SubqueryDecorrelation and
+//!     FlattenDependentJoin and executed by the harness-owned physical planner
+//!     (row-by-row `SubqueryExecutor`). Any pairwise disagreement is a failure.
+//! An engine error (on either path) is an allowed outcome.
 use super::Property;
+use crate::data::*;
+use crate::engine::{run_sql, run_with_rules};
+use crate::refsql::Db;
+use crate::runner::*;
+use crate::sqlast::*;
+use crate::sqlcheck::{fmt_tables, mem_context, short_err};
+use crate::sqlgen::*;
+use proptest::prelude::*;
+use query_engine::optimizer as qo;
+use std::sync::Arc;
+
+#[path = "c24_util.rs"]
+mod util;
+use util::*;
+
+// ---------------------------------------------------------------------------
+// generator
+// ---------------------------------------------------------------------------
+
+#[derive(Clone, Debug)]
+struct SCol {
+    rel: String,
+    name: String,
+    ty: ColType,
+}
+fn cx(c: &SCol) -> Expr {
+    Expr::qcol(&c.rel, &c.name)
+}
+
+struct G<'a> {
+    t: Tape,
+    tables: &'a [Table],
+    feats: Vec<&'static str>,
+    seq: usize,
+}
+
+impl<'a> G<'a> {
+    fn feat(&mut self, f: &'static str) {
+        if !self.feats.contains(&f) {
+            self.feats.push(f);
+        }
+    }
+    fn fresh(&mut self, p: &str) -> String {
+        self.seq += 1;
+        format!("{}{}", p, self.seq)
+    }
+    fn lit(&mut self, ty: ColType) -> Expr {
+        Expr::Lit(match ty {
+            ColType::Int | ColType::Int32 => Value::Int(self.t.pick(5) as i64),
+            ColType::Double => Value::Double((self.t.pick(9) as i64 - 4) as f64 * 0.25 + 0.0),
+            ColType::Str => Value::Str(["a", "", "ab", "b"][self.t.pick(4)].to_string()),
+            ColType::Date => Value::Date(10957 + self.t.pick(4) as i32 * 15),
+            ColType::Bool => Value::Bool(self.t.pick(2) == 1),
+        })
+    }
+    fn rel(&mut self, prefix: &str, prefer: Option<&str>, same_pct: u32) -> (From, Vec<SCol>, String) {
+        let ti = match prefer {
+            Some(n) if self.t.chance(same_pct) => self.tables.iter().position(|t| t.name == n).unwrap_or(0),
+            _ => self.t.pick(self.tables.len()),
+        };
+        let tb = &self.tables[ti];
+        let alias = self.fresh(prefix);
+        let cols = tb.cols.iter().map(|c| SCol { rel: alias.clone(), name: c.name.clone(), ty: c.ty }).collect();
+        (From::Table { name: tb.name.clone(), alias: Some(alias) }, cols, tb.name.clone())
+    }
+    fn pairs(l: &[SCol], r: &[SCol]) -> Vec<(SCol, SCol)> {
+        let mut v = vec![];
+        for a in l {
+            for b in r {
+                if a.ty == b.ty && a.ty != ColType::Double && a.ty != ColType::Bool {
+                    v.push((a.clone(), b.clone()));
+                }
+            }
+        }
+        v
+    }
+    fn simple_pred(&mut self, scope: &[SCol]) -> Expr {
+        let c = scope[self.t.pick(scope.len())].clone();
+        match self.t.pick(6) {
+            0 => Expr::IsNull { e: Box::new(cx(&c)), neg: true },
+            1 => Expr::IsNull { e: Box::new(cx(&c)), neg: false },
+            2 => Expr::bin(cx(&c), BinOp::Le, self.lit(c.ty)),
+            3 => Expr::bin(cx(&c), BinOp::Ne, self.lit(c.ty)),
+            4 => Expr::bin(cx(&c), BinOp::Gt, self.lit(c.ty)),
+            _ => Expr::eq(cx(&c), self.lit(c.ty)),
+        }
+    }
+
+    /// FROM + WHERE of a subquery. Returns (from, where, inner scope).
+    fn sub_body(&mut self, outer: &[SCol], outer_table: &str, depth: u32) -> (Vec<From>, Option<Expr>, Vec<SCol>) {
+        let (f0, mut inner, _) = self.rel("x", Some(outer_table), 35);
+        if let From::Table { name, .. } = &f0 {
+            if name == outer_table {
+                self.feat("inner_table_is_outer_table");
+            }
+        }
+        let mut from = f0;
+        match self.t.pick(14) {
+            12 => {
+                // inner join of two relations
+                let (f1, c1, _) = self.rel("x", None, 0);
+                let p = Self::pairs(&inner, &c1);
+                if !p.is_empty() {
+                    self.feat("inner_join");
+                    let (a, b) = p[self.t.pick(p.len())].clone();
+                    from = From::Join { l: Box::new(from), r: Box::new(f1), kind: JoinKind::Inner, on: Some(Expr::eq(cx(&a), cx(&b))) };
+                    inner.extend(c1);
+                }
+            }
+            13 => {
+                // derived table: same columns under a new alias
+                self.feat("inner_derived_table");
+                let d = self.fresh("d");
+                let items = inner.iter().map(|c| Item::Expr(cx(c), Some(c.name.clone()))).collect();
+                let w = if self.t.chance(50) { Some(self.simple_pred(&inner)) } else { None };
+                let q = Query::select(Select::simple(items, vec![from], w));
+                from = From::Derived { q: Box::new(q), alias: d.clone(), cols: None };
+                for c in inner.iter_mut() {
+                    c.rel = d.clone();
+                }
+            }
+            _ => {}
+        }
+        let mut conds: Vec<Expr> = vec![];
+        let ncorr = match self.t.pick(8) {
+            0 | 1 => 0,
+            2..=5 => 1,
+            _ => 2,
+        };
+        let ps = Self::pairs(&inner, outer);
+        let mut corr: Vec<Expr> = vec![];
+        if !ps.is_empty() {
+            for _ in 0..ncorr {
+                let (i, o) = ps[self.t.pick(ps.len())].clone();
+                let op = if self.t.chance(75) { BinOp::Eq } else { [BinOp::Lt, BinOp::Le, BinOp::Ne, BinOp::Gt][self.t.pick(4)] };
+                self.feat(if op == BinOp::Eq { "corr_eq" } else { "corr_noneq" });
+                let e = if self.t.chance(50) { Expr::bin(cx(&i), op, cx(&o)) } else { Expr::bin(cx(&o), op, cx(&i)) };
+                corr.push(e);
+            }
+        }
+        if !corr.is_empty() {
+            self.feat("correlated");
+        } else {
+            self.feat("uncorrelated");
+        }
+        let local = if self.t.chance(40) { Some(self.simple_pred(&inner)) } else { None };
+        if !corr.is_empty() && local.is_some() && self.t.chance(12) {
+            // correlation under OR
+            self.feat("corr_under_or");
+            let c0 = corr.remove(0);
+            conds.push(Expr::bin(c0, BinOp::Or, local.unwrap()));
+            conds.extend(corr);
+        } else {
+            conds.extend(corr);
+            conds.extend(local);
+        }
+        if depth < 2 && self.t.chance(14) {
+            self.feat("nested_depth2");
+            let mut sc: Vec<SCol> = inner.clone();
+            // the nested subquery may correlate to this block or skip a level
+            if self.t.chance(40) {
+                sc.extend(outer.iter().cloned());
+                self.feat("nested_sees_outermost");
+            }
+            let tname = outer_table.to_string();
+            let p = self.sub_pred(&sc, &tname, depth + 1);
+            conds.push(p);
+        }
+        (vec![from], conds.into_iter().reduce(Expr::and), inner)
+    }
+
+    /// A boolean subquery predicate over `outer`.
+    fn sub_pred(&mut self, outer: &[SCol], outer_table: &str, depth: u32) -> Expr {
+        let (from, where_, inner) = self.sub_body(outer, outer_table, depth);
+        match self.t.pick(9) {
+            0 | 1 | 2 => {
+                let neg = self.t.chance(45);
+                self.feat(if neg { "not_exists" } else { "exists" });
+                let item = match self.t.pick(3) {
+                    0 => Item::Expr(Expr::int(1), None),
+                    1 => Item::Star,
+                    _ => Item::Expr(cx(&inner[self.t.pick(inner.len())]), None),
+                };
+                Expr::Exists { q: Box::new(Query::select(Select::simple(vec![item], from, where_))), neg }
+            }
+            3 | 4 | 5 => {
+                let ps = Self::pairs(outer, &inner);
+                if ps.is_empty() {
+                    self.feat("exists");
+                    return Expr::Exists { q: Box::new(Query::select(Select::simple(vec![Item::Expr(Expr::int(1), None)], from, where_))), neg: false };
+                }
+                let (o, i) = ps[self.t.pick(ps.len())].clone();
+                let neg = self.t.chance(45);
+                self.feat(if neg { "not_in_subquery" } else { "in_subquery" });
+                let lhs = match self.t.pick(12) {
+                    0 => {
+                        self.feat("in_lhs_literal");
+                        self.lit(o.ty)
+                    }
+                    _ => cx(&o),
+                };
+                let distinct = self.t.chance(10);
+                let mut sel = Select::simple(vec![Item::Expr(cx(&i), None)], from, where_);
+                sel.distinct = distinct;
+                Expr::InSub { e: Box::new(lhs), q: Box::new(Query::select(sel)), neg }
+            }
+            _ => {
+                let (agg, ty) = self.scalar_agg(&inner);
+                let q = Query::select(Select::simple(vec![Item::Expr(agg, None)], from, where_));
+                let cands: Vec<SCol> = outer.iter().filter(|c| c.ty == ty).cloned().collect();
+                let other = if !cands.is_empty() && self.t.chance(60) { cx(&cands[self.t.pick(cands.len())]) } else { self.lit(ty) };
+                let op = [BinOp::Eq, BinOp::Lt, BinOp::Ge, BinOp::Ne, BinOp::Le, BinOp::Gt][self.t.pick(6)];
+                if self.t.chance(50) {
+                    Expr::bin(other, op, Expr::Scalar(Box::new(q)))
+                } else {
+                    self.feat("scalar_on_left");
+                    Expr::bin(Expr::Scalar(Box::new(q)), op, other)
+                }
+            }
+        }
+    }
+
+    fn scalar_agg(&mut self, inner: &[SCol]) -> (Expr, ColType) {
+        let c = inner[self.t.pick(inner.len())].clone();
+        match self.t.pick(7) {
+            0 | 1 => {
+                self.feat("scalar_count_star");
+                (Expr::count_star(), ColType::Int)
+            }
+            2 => {
+                self.feat("scalar_count_col");
+                (Expr::agg(AggF::Count, cx(&c)), ColType::Int)
+            }
+            3 => {
+                self.feat("scalar_min");
+                (Expr::agg(AggF::Min, cx(&c)), c.ty)
+            }
+            4 => {
+                self.feat("scalar_max");
+                (Expr::agg(AggF::Max, cx(&c)), c.ty)
+            }
+            _ => {
+                let ints: Vec<SCol> = inner.iter().filter(|c| c.ty == ColType::Int).cloned().collect();
+                if ints.is_empty() {
+                    self.feat("scalar_count_star");
+                    (Expr::count_star(), ColType::Int)
+                } else {
+                    self.feat("scalar_sum");
+                    (Expr::agg(AggF::Sum, cx(&ints[self.t.pick(ints.len())])), ColType::Int)
+                }
+            }
+        }
+    }
+}
+
+fn build(tables: Vec<Table>, tape: Vec<u16>, cuts: Vec<Vec<usize>>) -> SqlCase {
+    let mut g = G { t: Tape::new(tape), tables: &tables, feats: vec![], seq: 0 };
+    let (f1, mut scope, tname) = g.rel("t", None, 0);
+    let mut from = vec![f1];
+    let mut conds: Vec<Expr> = vec![];
+    match g.t.pick(10) {
+        8 => {
+            let (f2, c2, _) = g.rel("t", None, 0);
+            g.feat("outer_join_comma");
+            let p = G::pairs(&scope, &c2);
+            if !p.is_empty() {
+                let (a, b) = p[g.t.pick(p.len())].clone();
+                conds.push(Expr::eq(cx(&a), cx(&b)));
+            }
+            from.push(f2);
+            scope.extend(c2);
+        }
+        9 => {
+            let (f2, c2, _) = g.rel("t", None, 0);
+            let p = G::pairs(&scope, &c2);
+            if !p.is_empty() {
+                g.feat("outer_join_left");
+                let (a, b) = p[g.t.pick(p.len())].clone();
+                let l = from.pop().unwrap();
+                from.push(From::Join { l: Box::new(l), r: Box::new(f2), kind: JoinKind::Left, on: Some(Expr::eq(cx(&a), cx(&b))) });
+                scope.extend(c2);
+            }
+        }
+        _ => {}
+    }
+    let select_list_sub = g.t.chance(16);
+    let where_sub = !select_list_sub || g.t.chance(40);
+    if where_sub {
+        let p = g.sub_pred(&scope, &tname, 1);
+        let placed = match g.t.pick(20) {
+            0..=10 => {
+                g.feat("place_top");
+                p
+            }
+            11..=13 => {
+                g.feat("place_and_local");
+                Expr::and(p, g.simple_pred(&scope))
+            }
+            14 | 15 => {
+                g.feat("place_or_local");
+                Expr::bin(p, BinOp::Or, g.simple_pred(&scope))
+            }
+            16 => {
+                g.feat("place_not");
+                Expr::Not(Box::new(p))
+            }
+            _ => {
+                g.feat("place_two_subqueries");
+                let p2 = g.sub_pred(&scope, &tname, 1);
+                Expr::and(p, p2)
+            }
+        };
+        conds.push(placed);
+    }
+    let mut items = vec![];
+    let n = 1 + g.t.pick(2);
+    for _ in 0..n {
+        let c = scope[g.t.pick(scope.len())].clone();
+        let a = g.fresh("c");
+        items.push(Item::Expr(cx(&c), Some(a)));
+    }
+    if select_list_sub {
+        g.feat("scalar_in_select_list");
+        let (sfrom, swhere, inner) = g.sub_body(&scope, &tname, 1);
+        let (agg, _) = g.scalar_agg(&inner);
+        let q = Query::select(Select::simple(vec![Item::Expr(agg, None)], sfrom, swhere));
+        let a = g.fresh("c");
+        items.push(Item::Expr(Expr::Scalar(Box::new(q)), Some(a)));
+    }
+    let mut sel = Select::simple(items, from, conds.into_iter().reduce(Expr::and));
+    if g.t.chance(5) {
+        g.feat("distinct");
+        sel.distinct = true;
+    }
+    let features = g.feats.iter().map(|s| s.to_string()).collect();
+    SqlCase { cuts: cuts.into_iter().take(tables.len()).collect(), tables, query: Query::select(sel), features }
+}
+
+pub fn strategy(tier: Tier) -> BoxedStrategy<SqlCase> {
+    let mut tp = TableProfile::default();
+    tp.min_tables = 2;
+    tp.max_rows = tier.pick(6, 16);
+    tp.max_cols = 3;
+    tp.types = vec![ColType::Int, ColType::Int, ColType::Int, ColType::Int, ColType::Str, ColType::Date];
+    tp.null_pcts = vec![0, 0, 25, 45];
+    let max_rows = tp.max_rows;
+    (
+        tables_strategy(tp),
+        proptest::collection::vec(any::<u16>(), 0..160),
+        proptest::collection::vec(proptest::collection::vec(0..=max_rows, 0..3), 3),
+    )
+        .prop_map(|(tables, tape, cuts)| build(tables, tape, cuts))
+        .boxed()
+}
+
+// ---------------------------------------------------------------------------
+// analysis of the subqueries of a statement
+// ---------------------------------------------------------------------------
+
+#[derive(Clone, Debug, Default)]
+pub struct SubInfo {
+    /// exists | not_exists | in | not_in | scalar
+    pub kind: &'static str,
+    pub agg: Option<AggF>,
+    pub count_star: bool,
+    pub in_select_list: bool,
+    /// directly a conjunct of the outer WHERE (not under OR / NOT)
+    pub top_conjunct: bool,
+    pub level: u32,
+    pub corr_eq: usize,
+    pub corr_noneq: usize,
+    /// correlated in some other way (under OR, inside a nested block, in an expression)
+    pub corr_other: bool,
+    /// every inner column used in an equality correlation is also in the select list
+    pub corr_cols_projected: bool,
+    pub inner_relations: usize,
+    pub inner_derived: bool,
+    pub inner_self: bool,
+    pub has_nested: bool,
+    pub distinct: bool,
+    /// the aggregate's argument column is DATE or VARCHAR in some table
+    pub agg_arg_non_numeric: bool,
+    /// level >= 2 only: the subquery mentions a column of the OUTERMOST block
+    pub refs_outermost: bool,
+    pub outer_relations: usize,
+    // data facts (first-level subqueries only; None deeper)
+    pub some_outer_row_empty: bool,
+    pub some_outer_row_nonempty: bool,
+    pub result_has_null: bool,
+    pub lhs_null: bool,
+}
+
+impl SubInfo {
+    pub fn correlated(&self) -> bool {
+        self.corr_eq + self.corr_noneq > 0 || self.corr_other
+    }
+    pub fn shape(&self) -> String {
+        format!(
+            "{}{}|eq{}|ne{}{}|{}|{}{}{}{}|outer{}",
+            self.kind,
+            match (self.agg, self.count_star) {
+                (_, true) => ":count*".to_string(),
+                (Some(a), _) => format!(":{}", a.sql().to_lowercase()),
+                _ => String::new(),
+            },
+            self.corr_eq,
+            self.corr_noneq,
+            if self.corr_other { "+other" } else { "" },
+            if self.corr_cols_projected { "proj" } else { "noproj" },
+            if self.in_select_list { "select" } else if self.top_conjunct { "where-top" } else { "where-nested-bool" },
+            if self.inner_derived { "|derived" } else { "" },
+            if self.inner_relations > 1 { "|innerjoin" } else { "" },
+            if self.has_nested { "|nested" } else { "" },
+            self.outer_relations
+        )
+    }
+}
+
+fn from_aliases(f: &From, out: &mut Vec<(String, Option<String>)>) {
+    match f {
+        From::Table { name, alias } => out.push((alias.clone().unwrap_or_else(|| name.clone()), Some(name.clone()))),
+        From::Derived { alias, .. } => out.push((alias.clone(), None)),
+        From::Join { l, r, .. } => {
+            from_aliases(l, out);
+            from_aliases(r, out);
+        }
+    }
+}
+
+fn conjuncts<'a>(e: &'a Expr, out: &mut Vec<&'a Expr>) {
+    match e {
+        Expr::Bin(a, BinOp::And, b) => {
+            conjuncts(a, out);
+            conjuncts(b, out);
+        }
+        o => out.push(o),
+    }
+}
+
+/// relations (aliases) an expression mentions, not descending into subqueries
+fn rels_of(e: &Expr) -> Vec<String> {
+    let mut v = vec![];
+    e.walk(&mut |x| {
+        if let Expr::Col { rel: Some(r), .. } = x {
+            if !v.contains(r) {
+                v.push(r.clone());
+            }
+        }
+    });
+    v
+}
+
+fn sole_select(q: &Query) -> Option<&Select> {
+    match &q.body {
+        SetExpr::Select(s) => Some(s),
+        _ => None,
+    }
+}
+
+/// Does any expression inside `q` (at any depth) mention an alias not defined inside `q`?
+fn mentions_outside(q: &Query, defined: &mut Vec<String>) -> bool {
+    let Some(s) = sole_select(q) else { return false };
+    let mut al = vec![];
+    for f in &s.from {
+        from_aliases(f, &mut al);
+    }
+    let mark = defined.len();
+    defined.extend(al.into_iter().map(|(a, _)| a));
+    let mut hit = false;
+    let mut exprs: Vec<&Expr> = vec![];
+    for it in &s.items {
+        if let Item::Expr(e, _) = it {
+            exprs.push(e);
+        }
+    }
+    exprs.extend(s.where_.iter());
+    for e in exprs {
+        e.walk(&mut |x| match x {
+            Expr::Col { rel: Some(r), .. } => {
+                if !defined.contains(r) {
+                    hit = true;
+                }
+            }
+            _ => {}
+        });
+        let mut subs = vec![];
+        e.walk(&mut |x| match x {
+            Expr::Exists { q, .. } | Expr::Scalar(q) | Expr::InSub { q, .. } => subs.push(q.as_ref()),
+            _ => {}
+        });
+        for sq in subs {
+            if mentions_outside(sq, defined) {
+                hit = true;
+            }
+        }
+    }
+    defined.truncate(mark);
+    hit
+}
+
+thread_local! {
+    /// names of the DATE / VARCHAR columns of the case being analysed
+    static NON_NUMERIC_COLS: std::cell::RefCell<Vec<String>> = const { std::cell::RefCell::new(Vec::new()) };
+}
+
+fn describe(kind: &'static str, q: &Query, level: u32, in_select_list: bool, top: bool, outer_relations: usize, outer_tables: &[String]) -> SubInfo {
+    let mut info = SubInfo { kind, level, in_select_list, top_conjunct: top, outer_relations, corr_cols_projected: true, ..Default::default() };
+    let Some(s) = sole_select(q) else { return info };
+    let mut al = vec![];
+    for f in &s.from {
+        from_aliases(f, &mut al);
+    }
+    info.inner_relations = al.len();
+    info.inner_derived = al.iter().any(|(_, t)| t.is_none());
+    info.inner_self = al.iter().any(|(_, t)| t.as_ref().map(|n| outer_tables.contains(n)).unwrap_or(false));
+    let inner: Vec<String> = al.iter().map(|(a, _)| a.clone()).collect();
+    info.distinct = s.distinct;
+    if let Some(Item::Expr(Expr::Agg { f, arg, .. }, _)) = s.items.first() {
+        info.agg = Some(*f);
+        info.count_star = arg.is_none();
+        if let Some(a) = arg {
+            if let Expr::Col { name, .. } = &**a {
+                info.agg_arg_non_numeric = NON_NUMERIC_COLS.with(|c| c.borrow().contains(name));
+            }
+        }
+    }
+    let projected: Vec<String> = s
+        .items
+        .iter()
+        .filter_map(|i| match i {
+            Item::Expr(Expr::Col { name, .. }, _) => Some(name.clone()),
+            _ => None,
+        })
+        .collect();
+    let star = s.items.iter().any(|i| matches!(i, Item::Star));
+    let mut cj = vec![];
+    if let Some(w) = &s.where_ {
+        conjuncts(w, &mut cj);
+    }
+    for c in cj {
+        let is_inner = |e: &Expr| {
+            let r = rels_of(e);
+            !r.is_empty() && r.iter().all(|x| inner.contains(x))
+        };
+        let is_outer = |e: &Expr| {
+            let r = rels_of(e);
+            !r.is_empty() && r.iter().all(|x| !inner.contains(x))
+        };
+        match c {
+            Expr::Bin(a, op, b) if op.is_cmp() && !a.contains_subquery() && !b.contains_subquery() && ((is_inner(a) && is_outer(b)) || (is_outer(a) && is_inner(b))) => {
+                if *op == BinOp::Eq {
+                    info.corr_eq += 1;
+                    let ie = if is_inner(a) { a } else { b };
+                    if let Expr::Col { name, .. } = &**ie {
+                        if !star && !projected.contains(name) {
+                            info.corr_cols_projected = false;
+                        }
+                    }
+                } else {
+                    info.corr_noneq += 1;
+                }
+            }
+            other => {
+                if other.contains_subquery() {
+                    info.has_nested = true;
+                }
+                // any other mention of an outside alias
+                let r = rels_of(other);
+                if r.iter().any(|x| !inner.contains(x)) {
+                    info.corr_other = true;
+                }
+                let mut subs = vec![];
+                other.walk(&mut |x| match x {
+                    Expr::Exists { q, .. } | Expr::Scalar(q) | Expr::InSub { q, .. } => subs.push(q.as_ref()),
+                    _ => {}
+                });
+                for sq in subs {
+                    let mut d = inner.clone();
+                    if mentions_outside(sq, &mut d) {
+                        info.corr_other = true;
+                    }
+                }
+            }
+        }
+    }
+    info
+}
+
+/// All subqueries of the outermost block (level 1) and their nested ones (level 2).
+pub fn subqueries(c: &SqlCase) -> Vec<(SubInfo, Expr)> {
+    NON_NUMERIC_COLS.with(|v| {
+        *v.borrow_mut() = c.tables.iter().flat_map(|t| t.cols.iter().filter(|col| matches!(col.ty, ColType::Date | ColType::Str)).map(|col| col.name.clone())).collect()
+    });
+    let mut out = vec![];
+    let Some(s) = sole_select(&c.query) else { return out };
+    let mut al = vec![];
+    for f in &s.from {
+        from_aliases(f, &mut al);
+    }
+    let outer_tables: Vec<String> = al.iter().filter_map(|(_, t)| t.clone()).collect();
+    let n_outer = al.len();
+    let outermost: Vec<String> = al.iter().map(|(a, _)| a.clone()).collect();
+    fn visit(e: &Expr, level: u32, in_select: bool, top: bool, n_outer: usize, outer_tables: &[String], outermost: &[String], out: &mut Vec<(SubInfo, Expr)>) {
+        let mut found: Vec<(&'static str, &Query, &Expr)> = vec![];
+        e.walk(&mut |x| match x {
+            Expr::Exists { q, neg } => found.push((if *neg { "not_exists" } else { "exists" }, q, x)),
+            Expr::InSub { q, neg, .. } => found.push((if *neg { "not_in" } else { "in" }, q, x)),
+            Expr::Scalar(q) => found.push(("scalar", q, x)),
+            _ => {}
+        });
+        for (kind, q, x) in found {
+            let is_top = top
+                && match e {
+                    // the conjunct IS the subquery predicate, or a comparison with the scalar subquery
+                    Expr::Exists { .. } | Expr::InSub { .. } => true,
+                    Expr::Bin(a, op, b) if op.is_cmp() => matches!(**a, Expr::Scalar(_)) || matches!(**b, Expr::Scalar(_)),
+                    _ => false,
+                };
+            let mut info = describe(kind, q, level, in_select, is_top, n_outer, outer_tables);
+            if level >= 2 {
+                let mut hit = false;
+                crate::kf_sql::walk_query_exprs(q, &mut |y| {
+                    if let Expr::Col { rel: Some(r), .. } = y {
+                        if outermost.contains(r) {
+                            hit = true;
+                        }
+                    }
+                });
+                info.refs_outermost = hit;
+            }
+            out.push((info, x.clone()));
+            if let Some(s) = sole_select(q) {
+                if let Some(w) = &s.where_ {
+                    let mut cj = vec![];
+                    conjuncts(w, &mut cj);
+                    for c in cj {
+                        if c.contains_subquery() {
+                            visit(c, level + 1, false, true, 1, outer_tables, outermost, out);
+                        }
+                    }
+                }
+            }
+        }
+    }
+    if let Some(w) = &s.where_ {
+        let mut cj = vec![];
+        conjuncts(w, &mut cj);
+        for cjn in cj {
+            if cjn.contains_subquery() {
+                visit(cjn, 1, false, true, n_outer, &outer_tables, &outermost, &mut out);
+            }
+        }
+    }
+    for it in &s.items {
+        if let Item::Expr(e, _) = it {
+            if e.contains_subquery() {
+                visit(e, 1, true, false, n_outer, &outer_tables, &outermost, &mut out);
+            }
+        }
+    }
+    out
+}
+
+fn subst_expr(e: &Expr, env: &[(String, String, Value)]) -> Expr {
+    let b = |x: &Expr| Box::new(subst_expr(x, env));
+    let v = |xs: &[Expr]| xs.iter().map(|x| subst_expr(x, env)).collect::<Vec<_>>();
+    match e {
+        Expr::Col { rel: Some(r), name } => match env.iter().find(|(a, n, _)| a == r && n == name) {
+            Some((_, _, val)) => Expr::Lit(val.clone()),
+            None => e.clone(),
+        },
+        Expr::Col { .. } | Expr::Lit(_) => e.clone(),
+        Expr::Bin(a, op, c) => Expr::Bin(b(a), *op, b(c)),
+        Expr::Not(a) => Expr::Not(b(a)),
+        Expr::Neg(a) => Expr::Neg(b(a)),
+        Expr::IsNull { e, neg } => Expr::IsNull { e: b(e), neg: *neg },
+        Expr::InList { e, list, neg } => Expr::InList { e: b(e), list: v(list), neg: *neg },
+        Expr::Between { e, lo, hi, neg } => Expr::Between { e: b(e), lo: b(lo), hi: b(hi), neg: *neg },
+        Expr::Agg { f, arg, distinct } => Expr::Agg { f: *f, arg: arg.as_ref().map(|a| b(a)), distinct: *distinct },
+        Expr::Exists { q, neg } => Expr::Exists { q: Box::new(subst_query(q, env)), neg: *neg },
+        Expr::InSub { e, q, neg } => Expr::InSub { e: b(e), q: Box::new(subst_query(q, env)), neg: *neg },
+        Expr::Scalar(q) => Expr::Scalar(Box::new(subst_query(q, env))),
+        other => other.clone(),
+    }
+}
+fn subst_from(f: &From, env: &[(String, String, Value)]) -> From {
+    match f {
+        From::Join { l, r, kind, on } => From::Join { l: Box::new(subst_from(l, env)), r: Box::new(subst_from(r, env)), kind: *kind, on: on.as_ref().map(|e| subst_expr(e, env)) },
+        From::Derived { q, alias, cols } => From::Derived { q: Box::new(subst_query(q, env)), alias: alias.clone(), cols: cols.clone() },
+        o => o.clone(),
+    }
+}
+fn subst_query(q: &Query, env: &[(String, String, Value)]) -> Query {
+    let mut q2 = q.clone();
+    if let SetExpr::Select(s) = &q.body {
+        let mut s2 = (**s).clone();
+        s2.items = s.items.iter().map(|i| match i {
+            Item::Expr(e, a) => Item::Expr(subst_expr(e, env), a.clone()),
+            o => o.clone(),
+        }).collect();
+        s2.from = s.from.iter().map(|f| subst_from(f, env)).collect();
+        s2.where_ = s.where_.as_ref().map(|e| subst_expr(e, env));
+        q2.body = SetExpr::Select(Box::new(s2));
+    }
+    q2
+}
+
+/// Fill the data facts of the first-level subqueries by evaluating each of
+/// them (through the reference) once per outer row, the outer columns replaced
+/// by that row's values.
+pub fn analyse(c: &SqlCase) -> Vec<SubInfo> {
+    let mut subs = subqueries(c);
+    let Some(s) = sole_select(&c.query) else { return subs.into_iter().map(|x| x.0).collect() };
+    let mut al = vec![];
+    for f in &s.from {
+        from_aliases(f, &mut al);
+    }
+    // outer rows: every column of every outer relation
+    let mut items = vec![];
+    let mut names: Vec<(String, String)> = vec![];
+    for (a, t) in &al {
+        if let Some(t) = t {
+            if let Some(tb) = c.tables.iter().find(|x| x.name == *t) {
+                for col in &tb.cols {
+                    items.push(Item::Expr(Expr::qcol(a, &col.name), Some(format!("o{}", names.len()))));
+                    names.push((a.clone(), col.name.clone()));
+                }
+            }
+        }
+    }
+    let outer_q = Query::select(Select::simple(items, s.from.clone(), None));
+    let outer_rows = match Db::new(&c.tables).run(&outer_q) {
+        Ok(a) => a.rows,
+        Err(_) => return subs.into_iter().map(|x| x.0).collect(),
+    };
+    let mut distinct_rows: Rows = vec![];
+    for r in outer_rows {
+        if !distinct_rows.contains(&r) {
+            distinct_rows.push(r);
+        }
+    }
+    for (info, e) in subs.iter_mut() {
+        if info.level != 1 {
+            continue;
+        }
+        for row in distinct_rows.iter().take(40) {
+            let env: Vec<(String, String, Value)> = names.iter().zip(row).map(|((a, n), v)| (a.clone(), n.clone(), v.clone())).collect();
+            let (q, lhs) = match e {
+                Expr::Exists { q, .. } => (q, None),
+                Expr::InSub { q, e, .. } => (q, Some(e)),
+                Expr::Scalar(q) => (q, None),
+                _ => continue,
+            };
+            let mut q1 = subst_query(q, &env);
+            if let Some(l) = lhs {
+                let lq = Query::select(Select::simple(vec![Item::Expr(subst_expr(l, &env), None)], vec![], None));
+                if let Ok(a) = Db::new(&c.tables).run(&lq) {
+                    if a.rows.first().and_then(|r| r.first()).map(|v| v.is_null()).unwrap_or(false) {
+                        info.lhs_null = true;
+                    }
+                }
+            }
+            if info.kind == "scalar" {
+                if let Ok(a) = Db::new(&c.tables).run(&q1) {
+                    if a.rows.first().and_then(|r| r.first()).map(|v| v.is_null()).unwrap_or(false) {
+                        info.result_has_null = true;
+                    }
+                }
+                // emptiness of the aggregate's input
+                if let SetExpr::Select(s1) = &mut q1.body {
+                    s1.items = vec![Item::Expr(Expr::int(1), None)];
+                }
+            }
+            if let Ok(a) = Db::new(&c.tables).run(&q1) {
+                if a.rows.is_empty() {
+                    info.some_outer_row_empty = true;
+                } else {
+                    info.some_outer_row_nonempty = true;
+                }
+                if info.kind != "scalar" && info.kind != "exists" && info.kind != "not_exists" && a.rows.iter().any(|r| r.first().map(|v| v.is_null()).unwrap_or(false)) {
+                    info.result_has_null = true;
+                }
+            }
+        }
+    }
+    subs.into_iter().map(|x| x.0).collect()
+}
+
+// ---------------------------------------------------------------------------
+// the two engine paths
+// ---------------------------------------------------------------------------
+
+fn production_rules(without_decorrelation: bool) -> Vec<Arc<dyn qo::OptimizerRule>> {
+    // mirrors Optimizer::new() in /repo/src/optimizer/mod.rs (run_with_rules swaps in
+    // the statistics-aware variants exactly as ExecutionContext::sql does)
+    let mut v: Vec<Arc<dyn qo::OptimizerRule>> = vec![Arc::new(qo::ConstantFolding), Arc::new(qo::DeriveOrPredicates), Arc::new(qo::PredicatePushdown)];
+    if !without_decorrelation {
+        v.push(Arc::new(qo::FlattenDependentJoin));
+        v.push(Arc::new(qo::SubqueryDecorrelation));
+    }
+    v.extend::<Vec<Arc<dyn qo::OptimizerRule>>>(vec![
+        Arc::new(qo::SemiJoinPushdown),
+        Arc::new(qo::JoinReorder::new()),
+        Arc::new(qo::PredicatePushdown),
+        Arc::new(qo::HavingTotalCse),
+        Arc::new(qo::GroupKeyReduction::new()),
+        Arc::new(qo::EagerAggregation::new()),
+        Arc::new(qo::PackedGroupKeys::new()),
+        Arc::new(qo::PackedJoinKeys::new()),
+        Arc::new(qo::ProjectionPushdown),
+        Arc::new(qo::VectorSearchPushdown),
+    ]);
+    v
+}
+
+fn plan_decorrelated(c: &SqlCase, sql: &str) -> (bool, String) {
+    let ctx = mem_context(c);
+    // the optimizer may panic (C29's business): treat as "no plan"
+    let plan = std::panic::catch_unwind(std::panic::AssertUnwindSafe(|| ctx.optimized_plan(sql)));
+    let Ok(plan) = plan else { return (false, String::new()) };
+    match plan {
+        Ok(p) => {
+            let t = format!("{}", p);
+            let l = t.to_lowercase();
+            let kinds: Vec<&str> = ["semi", "anti", "single", "mark", "delimjoin", "__scalar_result"].into_iter().filter(|k| l.contains(k)).collect();
+            (!kinds.is_empty(), kinds.join("+"))
+        }
+        Err(_) => (false, String::new()),
+    }
+}
+
+// ---------------------------------------------------------------------------
+// classification (filled in from the surveys; see kf-extra-C23.json)
+// ---------------------------------------------------------------------------
+
+fn asymmetric_noneq(q: &Expr) -> bool {
+    // does the subquery's WHERE hold a top-level `<`/`<=`/`>`/`>=` between an inner and an outer column?
+    let (Expr::Exists { q, .. } | Expr::InSub { q, .. } | Expr::Scalar(q)) = q else { return false };
+    let Some(s) = sole_select(q) else { return false };
+    let mut al = vec![];
+    for f in &s.from {
+        from_aliases(f, &mut al);
+    }
+    let inner: Vec<String> = al.into_iter().map(|(a, _)| a).collect();
+    let mut cj = vec![];
+    if let Some(w) = &s.where_ {
+        conjuncts(w, &mut cj);
+    }
+    cj.iter().any(|c| match c {
+        Expr::Bin(a, BinOp::Lt | BinOp::Le | BinOp::Gt | BinOp::Ge, b) => {
+            let (ra, rb) = (rels_of(a), rels_of(b));
+            !ra.is_empty() && !rb.is_empty() && (ra.iter().all(|x| inner.contains(x)) != rb.iter().all(|x| inner.contains(x)))
+        }
+        _ => false,
+    })
+}
+
+pub fn classify_infos(c: &SqlCase, ev: &Ev, msg: &str) -> Option<&'static str> {
+    let subs = subqueries(c);
+    let infos = analyse(c);
+    let differential = msg.contains("row-by-row execution disagree");
+    let is_in = |i: &SubInfo| i.kind == "in" || i.kind == "not_in";
+    let is_ex = |i: &SubInfo| i.kind == "exists" || i.kind == "not_exists";
+    // K7: the correlated inner column is looked up by bare name in an inner join
+    if !differential && infos.iter().any(|i| i.top_conjunct && !i.in_select_list && i.corr_eq >= 1 && i.inner_relations >= 2) {
+        return Some("decorrelation-inner-join-column-by-name");
+    }
+    // K1: decorrelated [NOT] IN loses correlation predicates
+    if !differential && infos.iter().any(|i| is_in(i) && i.top_conjunct && !i.in_select_list && (i.corr_noneq >= 1 || i.corr_other || (i.corr_eq >= 1 && (!i.corr_cols_projected || i.distinct)))) {
+        return Some("in-decorrelation-drops-correlation");
+    }
+    // K2: decorrelated [NOT] EXISTS: Semi/Anti join with a residual (non-equality) filter
+    if !differential && infos.iter().any(|i| is_ex(i) && i.top_conjunct && i.corr_eq >= 1 && i.corr_noneq >= 1) {
+        return Some("exists-semi-anti-residual-filter");
+    }
+    // K9: a decorrelated subquery keeps another reference to the outer block in its inner filter
+    if !differential && infos.iter().any(|i| i.top_conjunct && !i.in_select_list && i.corr_eq >= 1 && i.corr_other) {
+        return Some("decorrelation-leaves-outer-reference");
+    }
+    // K8: a nested subquery correlated to the outermost block (skipping a level), executed row by row
+    if infos.iter().any(|i| i.level >= 2 && i.refs_outermost) {
+        return Some("nested-subquery-skip-level-correlation");
+    }
+    // K12: correlated scalar MIN/MAX over a DATE / VARCHAR column (row-by-row result conversion)
+    if infos.iter().any(|i| i.kind == "scalar" && matches!(i.agg, Some(AggF::Min | AggF::Max)) && i.agg_arg_non_numeric && i.correlated()) {
+        return Some("rowbyrow-scalar-date-or-string-result");
+    }
+    // K8b: a correlated subquery nested in a subquery that itself runs row by row
+    if infos.iter().any(|i| i.level >= 2 && i.correlated()) && infos.iter().any(|i| i.level == 1 && i.has_nested && (i.corr_eq == 0 || !i.top_conjunct)) {
+        return Some("nested-subquery-skip-level-correlation");
+    }
+    // K11: a subquery left to the row-by-row executor whose correlation is not a plain `inner op outer` conjunct
+    if infos.iter().any(|i| i.corr_other && i.corr_eq == 0 && !is_in(i)) {
+        return Some("rowbyrow-correlation-not-a-conjunct");
+    }
+    // K3: correlated scalar COUNT over an empty correlated input
+    if infos.iter().any(|i| i.kind == "scalar" && i.agg == Some(AggF::Count) && i.correlated() && (i.some_outer_row_empty || i.level > 1)) {
+        return Some("scalar-count-empty-correlated-input");
+    }
+    // K4: scalar MIN/MAX/SUM over an empty (or all-NULL) input
+    if (ev.contains("global_agg_empty_input") || ev.contains("agg_no_nonnull_input")) && infos.iter().any(|i| i.kind == "scalar" && matches!(i.agg, Some(AggF::Min | AggF::Max | AggF::Sum | AggF::Avg))) {
+        return Some("agg-empty-input");
+    }
+    // K5: [NOT] IN with a NULL on either side
+    if infos.iter().any(|i| is_in(i) && (i.lhs_null || i.result_has_null)) || ev.contains("in_subquery_null") || ev.contains("not_in_subquery_null") {
+        return Some("in-subquery-null");
+    }
+    // K6: the row-by-row executor evaluates a correlated IN subquery once, unsubstituted
+    if infos.iter().any(|i| is_in(i) && i.correlated() && (differential || !i.top_conjunct || i.level > 1 || i.in_select_list)) {
+        return Some("rowbyrow-correlated-in-unsupported");
+    }
+    None
+}
+
+fn classify_with(c: &SqlCase, ev: &Ev, msg: &str) -> Option<&'static str> {
+    // the shared signatures, except the coarse "any correlated subquery" one this property refines
+    classify_infos(c, ev, msg).or_else(|| crate::kf_sql::SIGS.iter().filter(|s| s.id != "correlated-subquery").find(|s| (s.pred)(c, ev)).map(|s| s.id))
+}
+
+// ---------------------------------------------------------------------------
+// check
+// ---------------------------------------------------------------------------
+
+struct SubqueryCheck;
+
+impl Check for SubqueryCheck {
+    type Case = SqlCase;
+    fn name(&self) -> &'static str {
+        "subquery_semantics_and_decorrelation"
+    }
+    fn rule(&self) -> &'static str {
+        "the engine answered, some first-level subquery is empty or yields a NULL (or has a NULL left operand) for some outer row, and the production plan contains a Semi/Anti/Single/Mark/Delim join or a decorrelated scalar join"
+    }
+    fn cases(&self, tier: Tier) -> u32 {
+        tier.pick(2000, 60_000)
+    }
+    fn max_shrink_iters(&self) -> u32 {
+        1500
+    }
+    fn strategy(&self, tier: Tier) -> BoxedStrategy<SqlCase> {
+        strategy(tier)
+    }
+    fn test(&self, c: &SqlCase, obs: &mut Obs) -> Verdict {
+        let sql = c.query.sql();
+        let infos = analyse(c);
+        for i in &infos {
+            obs.label(format!("sub:{}", i.kind));
+            if i.level == 1 {
+                if i.some_outer_row_empty {
+                    obs.label("fact:empty_for_some_outer_row");
+                }
+                if i.result_has_null {
+                    obs.label("fact:null_in_subquery_result");
+                }
+                if i.lhs_null {
+                    obs.label("fact:null_left_operand");
+                }
+            }
+        }
+        let survey = survey_mode();
+        let shapes: Vec<String> = infos.iter().map(|i| format!("L{}:{}{}{}{}", i.level, i.shape(), if i.some_outer_row_empty { "|EMPTY" } else { "" }, if i.result_has_null { "|NULLRES" } else { "" }, if i.lhs_null { "|NULLLHS" } else { "" })).collect();
+        let out = judge_text(c, &sql, obs, 1e-9, &classify_with);
+        for e in &out.events {
+            obs.label(format!("ev:{}", e));
+        }
+        let (decorrelated, kinds) = plan_decorrelated(c, &sql);
+        if decorrelated {
+            obs.label(format!("plan:{}", kinds));
+        } else {
+            obs.label("plan:not_decorrelated");
+        }
+        let data_nt = infos.iter().any(|i| i.level == 1 && (i.some_outer_row_empty || i.result_has_null || i.lhs_null));
+        obs.nontrivial(out.got.is_some() && data_nt && decorrelated);
+
+        let annotate = |v: Verdict, tag: &str| -> Verdict {
+            if !survey {
+                return v;
+            }
+            match v {
+                Verdict::Fail(m) => Verdict::Fail(format!("{} [{}] shapes={:?} plan={}", m, tag, shapes, kinds)),
+                Verdict::Known { id, msg } => Verdict::Known { id, msg: format!("{} [{}] shapes={:?} plan={}", msg, tag, shapes, kinds) },
+                o => o,
+            }
+        };
+
+        // second oracle: production optimizer vs the rule list without decorrelation
+        let (Some(reference), Some(got)) = (&out.reference, &out.got) else { return out.verdict };
+        let ctx = mem_context(c);
+        let row_by_row = std::panic::catch_unwind(std::panic::AssertUnwindSafe(|| run_with_rules(&ctx, &sql, production_rules(true)))).unwrap_or_else(|_| Err("PANIC: in the row-by-row path".into()));
+        let rbr = match row_by_row {
+            Ok(r) => r,
+            Err(e) => {
+                obs.label(format!("rowbyrow_error:{}", short_err(&e)));
+                return annotate(out.verdict, "opt-vs-ref; row-by-row errored");
+            }
+        };
+        obs.label("rowbyrow_ok");
+        let opt_ok = matches!(out.verdict, Verdict::Pass);
+        let rbr_ok = crate::refsql::compare_answer(reference, &rbr, 1e-9).is_ok();
+        let same = same_rows(got, &rbr, 1e-9) || (opt_ok && rbr_ok);
+        if !opt_ok {
+            return annotate(out.verdict, if rbr_ok { "OPT-WRONG rowbyrow-right" } else if same { "BOTH-WRONG-SAME" } else { "BOTH-WRONG-DIFFERENT" });
+        }
+        if same {
+            return Verdict::Pass;
+        }
+        // production answer agrees with the reference, the row-by-row path does not
+        let msg = format!(
+            "decorrelated and row-by-row execution disagree (production answer matches the reference, the plan without SubqueryDecorrelation/FlattenDependentJoin does not)\n sql: {}\n production: {}\n row-by-row: {}\n reference: {}\n tables: {}",
+            sql,
+            show(got),
+            show(&rbr),
+            show(&reference.rows),
+            fmt_tables(&c.tables)
+        );
+        let v = match classify_with(c, &out.events, &msg) {
+            Some(id) => Verdict::Known { id: id.to_string(), msg },
+            None => Verdict::Fail(msg),
+        };
+        annotate(v, "ROWBYROW-WRONG opt-right")
+    }
+}
 
 pub fn property() -> Property {
-    Property { id: "C23", level: "exploration", assumptions: &[], checks: vec![] }
+    Property {
+        id: "C23",
+        level: "exploration",
+        assumptions: &[
+            "the reference evaluator refsql implements SQL's three-valued EXISTS / IN / NOT IN / scalar-subquery semantics (cross-checked against SQLite)",
+            "the plan optimized with the production rule list minus SubqueryDecorrelation and FlattenDependentJoin, lowered by PhysicalPlanner with subquery execution enabled, is the engine's row-by-row subquery path",
+            "an engine error is an allowed outcome (the property only forbids wrong rows)",
+        ],
+        checks: vec![Box::new(SubqueryCheck)],
+    }
 }
